@@ -11,6 +11,7 @@ import TallyVerif.Driver.Report
 import TallyVerif.Driver.RulesFile
 import TallyVerif.Driver.Fmt
 import TallyVerif.Driver.Csv
+import TallyVerif.Driver.Strptime
 import TallyVerif.Driver.Fs
 import TallyVerif.Driver.View
 import TallyVerif.Driver.Discover
@@ -46,6 +47,8 @@ def dispatch (j : Json) : Json :=
   | "csv" => handleCsv j
   | "amount" => handleAmount j
   | "spaces" => handleSpaces j
+  | "strptime" => handleStrptime j
+  | "strptime_names" => handleStrptimeNames j
   | "discover" => handleDiscover j
   | "migrate" => TallyVerif.Driver.Mig.handleMigrate j
   | "legacycsv" => TallyVerif.Driver.Leg.handleLegacyCsv j
